@@ -27,6 +27,8 @@ MIND = [0.0, 0.5, -0.3]
 
 
 def types(dim, ph):
+    if dim == "2p":  # perturbed droplets: the order by volume differs from the order by radius
+        return [([x + ph, y], r, a) for x in (0.5, 2.2) for y in (0.5, 2.2) for (r, a) in ((1.0, [0.5, 0.5]), (1.05, [0.0, 0.0]), (0.7, [0.0, -0.9]))]
     if dim == "2x":  # strongly disparate radii: a tiny droplet between two big overlapping ones
         return [([x + ph, y], r) for x in (0.5, 2.2, 4.1) for y in (0.5, 2.2, 4.1) for r in (0.01, 2.0)]
     if dim == 1:
@@ -38,10 +40,10 @@ def types(dim, ph):
 
 def metrics(dim):
     # non-cubic boxes: every axis has its own period, so a mix-up of per-axis lengths changes minimal-image distances
-    shape = {1: [6], 2: [5, 7], 3: [4, 5, 6], "2x": [5, 7]}[dim]
+    shape = {1: [6], 2: [5, 7], 3: [4, 5, 6], "2x": [5, 7], "2p": [5, 7]}[dim]
     out = [None]
     masks = {1: [(True,), (False,)], 2: [(True, True), (True, False), (False, True), (False, False)],
-             3: [(True, True, True), (False, True, False), (True, False, True), (False, False, True)], "2x": [(True, True)]}[dim]
+             3: [(True, True, True), (False, True, False), (True, False, True), (False, False, True)], "2x": [(True, True)], "2p": [(True, False)]}[dim]
     for m in masks:
         out.append({"kind": "cart", "shape": list(shape), "dx": [1.0] * len(shape), "origin": [0.0] * len(shape), "periodic": list(m)})
     return out
@@ -50,7 +52,7 @@ def metrics(dim):
 def blocks(tier, seed):
     ph = [0.0, 0.05, 0.11][seed % 3]
     out = []
-    for dim in (1, 2, 3, "2x"):
+    for dim in (1, 2, 3, "2x", "2p"):
         nmax = 4 if (tier == "thorough" and dim == 1) else 3
         for gi, g in enumerate(metrics(dim)):
             for md in MIND:
@@ -67,7 +69,7 @@ def cases(block):
     if block["kind"] == "random":
         dim = block["dim"]
         for seed in range(block["seeds"]):
-            for region in ("grid", "grid-periodic", "bounds"):
+            for region in ("grid", "grid-periodic", "bounds") + (("polar", "sph", "sph-annular", "cyl") if dim == 1 else ()):
                 for radius in (0.7, (0.3, 1.1), (0.5, 0.5)):
                     for num in (0, 1, 7):
                         yield {"kind": "random", "dim": dim, "rng": seed, "region": region, "radius": radius, "num": num}
@@ -92,7 +94,14 @@ def run_case(case, ctx):
     dim, g, md = case["dim"], case["metric"], case["min_distance"]
     T = types(dim, case["phase"])
     spec = [T[i] for i in case["members"]]
-    drops = [SphericalDroplet(np.array(p, float), r) for p, r in spec]
+    if dim == "2p":
+        from droplets.droplets import PerturbedDroplet2D
+
+        drops = [PerturbedDroplet2D(np.array(p, float), r, None, np.array(a, float)) for p, r, a in spec]
+        spec = [(p, r) for p, r, a in spec]
+        ctx.count("perturbed-members")
+    else:
+        drops = [SphericalDroplet(np.array(p, float), r) for p, r in spec]
     grid = geom.make_grid(g) if g else None
     n = len(drops)
     tags = {"metric": "none" if g is None else "".join("p" if p else "n" for p in g["periodic"])}
@@ -193,6 +202,8 @@ def run_random(case, ctx):
     rng = np.random.default_rng(case["rng"])
     lo = [-1.0, 2.0, 0.5][:dim]
     hi = [4.0, 9.0, 6.5][:dim]
+    if case["region"] in ("polar", "sph", "sph-annular", "cyl"):
+        return run_random_sym(case, ctx)
     if case["region"] == "bounds":
         region = [(l, h) for l, h in zip(lo, hi)]
     else:
@@ -220,6 +231,38 @@ def run_random(case, ctx):
         ctx.count("random-overlap-removed")
 
 
+def run_random_sym(case, ctx):
+    """from_random with a symmetric grid as region: points of the (Cartesian) space the grid describes"""
+    import pde
+
+    from droplets import Emulsion
+
+    kind = case["region"]
+    if kind == "polar":
+        grid, gdim, rin, rout = pde.PolarSymGrid(5.0, 8), 2, 0.0, 5.0
+    elif kind == "sph":
+        grid, gdim, rin, rout = pde.SphericalSymGrid(4.0, 8), 3, 0.0, 4.0
+    elif kind == "sph-annular":
+        grid, gdim, rin, rout = pde.SphericalSymGrid((1.0, 5.0), 8), 3, 1.0, 5.0
+    else:
+        grid, gdim, rin, rout = pde.CylindricalSymGrid(4.0, (-2.0, 6.0), (4, 8)), 3, 0.0, 4.0
+    radius = case["radius"]
+    radius = tuple(radius) if isinstance(radius, (list, tuple)) else radius
+    r0, r1 = radius if isinstance(radius, tuple) else (radius, radius)
+    em = Emulsion.from_random(case["num"], grid, radius, rng=np.random.default_rng(case["rng"]), remove_overlapping=False)
+    ctx.op()
+    ok = len(em) == case["num"]
+    for d in em:
+        p = np.asarray(d.position, float)
+        ok = ok and d.dim == gdim and len(p) == gdim and r0 - 1e-15 <= d.radius <= r1 + 1e-15
+        if kind == "cyl":
+            ok = ok and len(p) == 3 and math.hypot(p[0], p[1]) <= rout + 1e-12 and -2.0 - 1e-12 <= p[2] <= 6.0 + 1e-12
+        else:
+            ok = ok and rin - 1e-12 <= float(np.linalg.norm(p)) <= rout + 1e-12
+    ctx.check("C10.random-in-range", bool(ok), {"region": kind, "droplets": [[list(map(float, d.position)), d.radius] for d in em][:4], "dim": [d.dim for d in em][:4]})
+    ctx.count("random-on-symmetric-grid")
+
+
 def expected_positive(tier):
     return ["C10.separated", "C10.identity-order", "C10.reason", "C10.largest-survives", "C10.idempotent", "C10.matrix", "C10.overlap-iff",
-            "C10.neighbors", "C10.random-in-range", "some-removed", "tied-largest", "random-overlap-removed"]
+            "C10.neighbors", "C10.random-in-range", "some-removed", "tied-largest", "random-overlap-removed", "random-on-symmetric-grid", "perturbed-members"]
